@@ -127,7 +127,8 @@ def gen_cases(seed, chunk, n, tier):
         if op == "transpose":
             perm = list(range(x.ndim))
             rng.shuffle(perm)
-            p = {"axes": perm}
+            # numpy's convention: any axis may be given as a negative number
+            p = {"axes": [q - x.ndim if rng.random() < 0.3 else q for q in perm]}
             exp = np.transpose(D, perm)
             exp_idx = [x.indices[q] for q in perm]
         elif op == "conj":
